@@ -103,7 +103,7 @@ func (c *compressionPool) Decompress(dst *bytes.Buffer, src *bytes.Buffer, readM
 		return errorf(CodeInvalidArgument, "message size %d is larger than configured max %d", bytesRead+discardedBytes, readMaxBytes)
 	}
 	if err := c.putDecompressor(decompressor); err != nil {
-		return errorf(CodeUnknown, "recycle decompressor: %w", err)
+		return errorf(CodeUnknown, "recycle decompressor: %w", hideEOF(err))
 	}
 	return nil
 }
@@ -111,14 +111,14 @@ func (c *compressionPool) Decompress(dst *bytes.Buffer, src *bytes.Buffer, readM
 func (c *compressionPool) Compress(dst *bytes.Buffer, src *bytes.Buffer) *Error {
 	compressor, err := c.getCompressor(dst)
 	if err != nil {
-		return errorf(CodeUnknown, "get compressor: %w", err)
+		return errorf(CodeUnknown, "get compressor: %w", hideEOF(err))
 	}
 	if _, err := io.Copy(compressor, src); err != nil {
 		_ = c.putCompressor(compressor)
 		return errorf(CodeInternal, "compress: %w", err)
 	}
 	if err := c.putCompressor(compressor); err != nil {
-		return errorf(CodeInternal, "recycle compressor: %w", err)
+		return errorf(CodeInternal, "recycle compressor: %w", hideEOF(err))
 	}
 	return nil
 }
